@@ -220,8 +220,19 @@ func c05Families(ls *sysListServer) []c05Family {
 			if s := c05Call(in, "GET", "/control/blocked_services/get", nil); s != "" {
 				f = append(f, s)
 			}
+			n := 2
+			if i%4 == 1 {
+				// The deprecated list-only endpoints.
+				if s := c05Call(in, "POST", "/control/blocked_services/set", ids); s != "" {
+					f = append(f, s)
+				}
+				if s := c05Call(in, "GET", "/control/blocked_services/list", nil); s != "" {
+					f = append(f, s)
+				}
+				n += 2
+			}
 
-			return 2, f
+			return n, f
 		}},
 		{"protection", func(in *sysInst, rng *rand.Rand, i int) (int, []string) {
 			var f []string
@@ -376,6 +387,164 @@ func TestVerifC05(t *testing.T) {
 		if rep.Violated() && round >= 1 {
 			break
 		}
+	}
+	for k := 0; k < verifkit.Pick(1, 4); k++ {
+		c05Background(rep, k)
+	}
+}
+
+// c05Background lets admin operations that rebuild the filtering engines land
+// while the program's own periodic list refresh (not an admin call, so not
+// serialised with them) is in its download phase: the list files are aged, the
+// server is restarted, the lists trickle in, and rule changes and list toggles
+// are issued meanwhile under DNS traffic.  Afterwards the server must still
+// answer DNS and admin requests.
+func c05Background(rep *verifkit.Report, k int) {
+	rng := rep.Rand(fmt.Sprintf("background%d", k))
+	up, err := sysStartUpstream(rng.Int63())
+	if err != nil {
+		rep.Inconcl("mock upstream: " + err.Error())
+
+		return
+	}
+	defer up.Stop()
+	ls, err := sysStartListServer()
+	if err != nil {
+		rep.Inconcl("list server: " + err.Error())
+
+		return
+	}
+	defer ls.Stop()
+	opts := sysConfOpts{UpstreamPort: up.Port, ExtraTop: c05DHCPConf, QLogMemSize: 50}
+	in, err := sysStart("", opts)
+	if err != nil {
+		rep.Inconcl("background phase start: " + err.Error())
+
+		return
+	}
+	defer os.RemoveAll(in.Dir)
+	body := func(ver, n int) []byte {
+		var sb strings.Builder
+		for i := 0; i < n; i++ {
+			fmt.Fprintf(&sb, "||bg%d-%d.verif.test^\n", ver, i)
+		}
+
+		return []byte(sb.String())
+	}
+	for li := 0; li < 2; li++ {
+		path := fmt.Sprintf("/bg%d.txt", li)
+		ls.Set(path, body(li, 500))
+		if s := c05Call(in, "POST", "/control/filtering/add_url", map[string]any{"name": "bg", "url": ls.URL(path), "whitelist": li == 1}); s != "" {
+			rep.Inconcl("background phase add_url: " + s)
+			in.Kill()
+
+			return
+		}
+	}
+	in.Stop(20 * time.Second)
+	fs, _ := filepath.Glob(filepath.Join(in.Dir, "data", "filters", "*.txt"))
+	old := time.Now().Add(-72 * time.Hour)
+	for _, f := range fs {
+		_ = os.Chtimes(f, old, old)
+	}
+	for li := 0; li < 2; li++ {
+		ls.SetSlow(fmt.Sprintf("/bg%d.txt", li), body(10+li, 3000), 30, 60*time.Millisecond)
+	}
+	hits0 := ls.HitsFor("/bg0.txt") + ls.HitsFor("/bg1.txt")
+	in2, err := sysRestart(in, opts)
+	if err != nil {
+		rep.Inconcl("background phase restart: " + err.Error())
+
+		return
+	}
+	in = in2
+	var stop atomic.Bool
+	var wg sync.WaitGroup
+	var served atomic.Int64
+	for c := 0; c < 4; c++ {
+		wg.Add(1)
+		go func(c int) {
+			defer wg.Done()
+			for n := 0; !stop.Load(); n++ {
+				if resp, qerr := sysQuery(in, "127.0.0.1", n%3 == 0, c05QueryNames[(n+c)%len(c05QueryNames)], dns.TypeA, 3*time.Second); qerr == nil && resp != nil {
+					served.Add(1)
+				}
+			}
+		}(c)
+	}
+	started := false
+	for w := 0; w < 1500 && !started; w++ {
+		if ls.HitsFor("/bg0.txt")+ls.HitsFor("/bg1.txt") > hits0 {
+			started = true
+		} else {
+			time.Sleep(10 * time.Millisecond)
+		}
+	}
+	rep.Eval(started, fmt.Sprintf("background|%d", k))
+	if started {
+		rep.Class("background_refresh_download_phase_reached")
+		// Engine-rebuilding admin operations during the download, without
+		// waiting for one another.
+		var ow sync.WaitGroup
+		for o := 0; o < 4; o++ {
+			ow.Add(1)
+			go func(o int) {
+				defer ow.Done()
+				switch o % 2 {
+				case 0:
+					_, _, _ = in.APITimeout("POST", "/control/filtering/set_rules", map[string]any{"rules": []string{fmt.Sprintf("||bgrule%d-%d.verif.test^", k, o)}}, 20*time.Second)
+				default:
+					_, _, _ = in.APITimeout("POST", "/control/filtering/set_url", map[string]any{"url": ls.URL("/bg0.txt"), "whitelist": false,
+						"data": map[string]any{"name": "bg", "url": ls.URL("/bg0.txt"), "enabled": o%4 == 1}}, 20*time.Second)
+				}
+				rep.Class("admin_calls_during_background_refresh")
+			}(o)
+			time.Sleep(time.Duration(50+rng.Intn(200)) * time.Millisecond)
+		}
+		ow.Wait()
+		// Let the background download finish, then save the configuration once
+		// more (a save takes the configuration locks).
+		time.Sleep(2500 * time.Millisecond)
+		_, _, _ = in.APITimeout("POST", "/control/filtering/set_rules", map[string]any{"rules": []string{"||bgfinal.verif.test^"}}, 20*time.Second)
+	}
+	stop.Store(true)
+	wg.Wait()
+	rep.EventN("background_phase_queries_served", int(served.Load()))
+	if !in.Exited() {
+		okProbes := 0
+		deadline := time.Now().Add(30 * time.Second)
+		for p := 0; p < 20 && time.Now().Before(deadline); p++ {
+			if resp, qerr := sysQuery(in, "127.0.0.1", p%2 == 0, fmt.Sprintf("bgprobe%d.verif.test", p), dns.TypeA, 5*time.Second); qerr == nil && resp != nil {
+				okProbes++
+			}
+		}
+		okGets := 0
+		for _, p := range []string{"/control/status", "/control/filtering/status", "/control/stats"} {
+			if st, _, e := in.API("GET", p, nil); e == nil && st == 200 {
+				okGets++
+			}
+		}
+		okSave := false
+		if st, _, e := in.APITimeout("POST", "/control/filtering/set_rules", map[string]any{"rules": []string{"||bgprobe.verif.test^"}}, 20*time.Second); e == nil && st == 200 {
+			okSave = true
+		}
+		if okProbes < 20 || okGets < 3 || !okSave {
+			dump := in.Dump()
+			summary, lockers := sysSummarizeDump(dump)
+			rep.Violate("stall-after-quiescence:background-refresh", fmt.Sprintf("after admin operations during the periodic list refresh only %d/20 DNS probes and %d/3 admin GETs succeeded, rule change accepted=%v", okProbes, okGets, okSave),
+				map[string]any{"goroutines_by_state_and_product_frames": summary, "stacks_blocked_on_mutexes": lockers})
+
+			return
+		}
+	}
+	clean := in.Stop(20 * time.Second)
+	log := in.Log()
+	if loc := c05PanicRe.FindStringIndex(log); loc != nil {
+		rep.Violate("server-crash:background-refresh", "the server process panicked or died with a fatal error", map[string]any{"log": log[loc[0]:min(loc[0]+6000, len(log))]})
+	} else if loc = c05RecoveredRe.FindStringIndex(log); loc != nil {
+		rep.Violate("panic-recovered:background-refresh", "a goroutine of the server panicked: "+log[loc[0]:loc[1]], map[string]any{"log": log[loc[0]:min(loc[0]+6000, len(log))]})
+	} else if !clean {
+		rep.Violate("shutdown-hang:background-refresh", "the server did not exit within 20 s of SIGTERM", map[string]any{"log_tail": sysTail(log, 12000)})
 	}
 }
 
